@@ -248,6 +248,27 @@ def _hist(case):
                                 lambda: "y=%r w=%r order=%r history init(%d,%d) update(%d) init(%d,%d) sweep to %d" % (
                                     ys, None if w is None else wl, order, s1, e1, p1, s2, e2, p2),
                                 with_proxy=(p2 % 2 == 0))
+    # jumps of the split position inside one node, forward AND backward (update(pa); update(pb) with no reset in between): the state
+    # reached is the state of (start, pb, end) whatever the path
+    order = list(range(n))
+    samples = numpy.array(order, dtype=numpy.int64)
+    for w in ([None] if wl is None else [None, numpy.array(wl)]):
+        Wtot = float(n) if w is None else float(w.sum())
+        for (s1, e1) in ranges:
+            if e1 - s1 < 3:
+                continue
+            for pa in range(s1 + 1, e1 + 1):
+                for pb in range(s1 + 1, e1 + 1):
+                    if pb == pa:
+                        continue
+                    C._test_criterion_init(crit_obj, y2, w, Wtot, samples, s1, e1)
+                    C._test_criterion_update(crit_obj, pa)
+                    C._test_criterion_update(crit_obj, pb)
+                    states += 1
+                    cnt += _check_state(
+                        C, crit_obj, cname, y, w, X, samples, s1, pb, e1, Wtot, bad,
+                        lambda: "y=%r w=%r history init(%d,%d) update(%d) update(%d)" % (ys, None if w is None else wl, s1, e1, pa, pb),
+                        with_proxy=(pa % 2 == 0))
     return {"viol": viol, "nontrivial": len(set(ys)) > 1, "states": states, "transitions": cnt,
             "outcome": ("hist", cname)}
 
